@@ -138,6 +138,23 @@ def walkOracles (c : Cfg) : Option Wl → List Step → List (Out StepOut) → L
   | d, s :: ss, .val o :: os => stepOracles c s d o ++ walkOracles c o.wl ss os
   | _, _, _ => []
 
+/-- no-crash oracle on every step of the implementation's walk, the panicking one included -/
+def crashOracles (rel : Rel) : Option Wl → List Step → List (Out StepOut) → List (String × Bool)
+  | d, s :: ss, o :: os =>
+    ("C07.sts_no_crash", noCrashFull rel s d (isPanic o)) ::
+      (match o with
+       | .val v => crashOracles rel v.wl ss os
+       | .panic => [])
+  | _, _, _ => []
+
+/-- some `UpgradeBatch` of the implementation's walk met a DaemonSet without `rollingUpdate` -/
+def anyDsNoRU : Option Wl → List Step → List (Out StepOut) → Bool
+  | d, s :: ss, o :: os =>
+    guardDsNoRU s d || (match o with
+                        | .val v => anyDsNoRU v.wl ss os
+                        | .panic => false)
+  | _, _, _ => false
+
 def pairOracles : List Step → List (Out StepOut) → List (String × Bool)
   | a :: b :: ss, .val oa :: .val ob :: os =>
     ("C06.sts_idempotent", idempotent a b oa ob) :: pairOracles (b :: ss) (.val ob :: os)
@@ -214,10 +231,11 @@ def handle : Handler := fun op inp impl => do
       (if wrote then [] else ["nowrite"]) ++
       (if steps.isEmpty then ["trivial"] else []) ++
       (stepTags d0 steps outs).eraseDups ++
+      (if anyDsNoRU d0 steps outs then ["guard:dsNoRollingUpdate"] else []) ++
       (if (steps.zip steps.tail).any (fun (a, b) => sameCall a b) then ["repeat"] else [])
     -- oracles on the implementation's snapshots
     let stepH := walkOracles c d0 steps outs
-    let pairH := pairOracles steps outs
+    let pairH := pairOracles steps outs ++ crashOracles rel d0 steps outs
     let vs := valsOf outs
     -- C05 round trip: the user's view survives every step, every complete Finalize releases the knobs
     let (rtH, rtTags) := match d0 with
